@@ -379,7 +379,17 @@ func genHistory(seed int64, idx int, thorough bool) *History {
 		}
 	}
 
-	nOps := 12 + r.Intn(7)
+	// every third history has an HTTPS listener, added early (Secure is part of the config)
+	forcedL := -1
+	if idx%3 == 1 {
+		l := genHTTP(r, "op-https", slot, false)
+		slot++
+		l.Secure = true
+		h.Lst = append(h.Lst, l)
+		forcedL = len(h.Lst) - 1
+	}
+
+	nOps := 11 + r.Intn(6)
 	if thorough {
 		nOps = 10 + r.Intn(21)
 	}
@@ -447,6 +457,10 @@ func genHistory(seed int64, idx int, thorough bool) *History {
 		// infeasible draw is simply repeated
 		if len(h.Ops) <= 2 && len(unregDirect) > 0 {
 			add(Op{K: "reg", A: pick(unregDirect), Via: -1})
+			continue
+		}
+		if len(h.Ops) == 3 && forcedL >= 0 && sim.Lst[h.Lst[forcedL].Name] == nil {
+			add(Op{K: "ladd", L: forcedL, Via: -1})
 			continue
 		}
 		w := r.Intn(100)
